@@ -360,6 +360,8 @@ type scenarioDef struct {
 	threads [][]lx.Op
 }
 
+var longRef = strings.Repeat("ref-0123456789-", 140) // 2100 bytes
+
 func init() {
 	one := []lx.LedgerSpec{{Name: "l1"}}
 	seed := post("seed", p("world", "z", "USD", "1"))
@@ -372,7 +374,9 @@ func init() {
 				{post("w>a", p("world", "a", "USD", "1"))}, {post("w>b", p("world", "b", "USD", "1"))}}},
 			scenarioDef{name: "post-accmeta-revert", prefix: []lx.Op{seed, fundA}, threads: [][]lx.Op{
 				{post("w>b", p("world", "b", "USD", "1"))},
-				{{Kind: "accmeta", Name: "accmeta-q", Address: "q", Meta: map[string]string{"k": "v"}}},
+				// '&', '<', '>' are the characters Go's JSON encoder escapes and jsonb output does
+				// not: the stored chain must still be the documented one (seeded change C09)
+				{{Kind: "accmeta", Name: "accmeta-q", Address: "q", Meta: map[string]string{"k": "R&D <v>"}}},
 				{{Kind: "revert", Name: "revert2", TxID: 2}}}},
 			scenarioDef{name: "first-writes-on-pristine-ledger", threads: [][]lx.Op{
 				{post("w>a", p("world", "a", "USD", "1"))}, {post("w>b", p("world", "b", "USD", "1"))}}},
@@ -419,11 +423,16 @@ func init() {
 				threads: [][]lx.Op{
 					{{Kind: "post", Name: "l1 ref=r", Postings: []lx.P{p("world", "a", "USD", "1")}, Ref: "r"}},
 					{{Kind: "post", Ledger: "l2", Name: "l2 ref=r", Postings: []lx.P{p("world", "a", "USD", "1")}, Ref: "r"}}}},
+			// a long reference (2100 bytes): uniqueness must not depend on the length of the value
+			// (seeded change C14 rebuilt the unique index with a predicate on octet_length)
+			scenarioDef{name: "two-creates-same-long-reference", prefix: []lx.Op{seed}, threads: [][]lx.Op{
+				{{Kind: "post", Name: "w>a ref=long", Postings: []lx.P{p("world", "a", "USD", "1")}, Ref: longRef}},
+				{{Kind: "post", Name: "w>b ref=long", Postings: []lx.P{p("world", "b", "USD", "2")}, Ref: longRef}}}},
 			scenarioDef{name: "two-references-crossed", prefix: []lx.Op{seed}, threads: [][]lx.Op{
 				{{Kind: "post", Name: "w>a ref=r", Postings: []lx.P{p("world", "a", "USD", "1")}, Ref: "r"}, {Kind: "post", Name: "w>a ref=s", Postings: []lx.P{p("world", "a", "USD", "1")}, Ref: "s"}},
 				{{Kind: "post", Name: "w>b ref=s", Postings: []lx.P{p("world", "b", "USD", "2")}, Ref: "s"}, {Kind: "post", Name: "w>b ref=r", Postings: []lx.P{p("world", "b", "USD", "2")}, Ref: "r"}}}},
 		),
-		rule: "4 scenarios (2 and 3 concurrent creates sharing a reference, by postings and by script; the same reference in two ledgers of one bucket; a reference that already exists vs a new one); every schedule with <= bound preemptions (thorough: all), the partial unique index (ledger, reference) where reference <> '' deciding who waits and who gets 23505; oracle: at most one success and one stored transaction per (ledger, reference), every loser gets ErrTransactionReferenceConflict, the final state equals the replay of the winners only (losers leave no trace), cross-ledger both succeed",
+		rule: "5 scenarios (2 and 3 concurrent creates sharing a reference, by postings and by script; the same reference in two ledgers of one bucket; a 2100-byte reference; a reference that already exists vs a new one); every schedule with <= bound preemptions (thorough: all), the partial unique index (ledger, reference) where reference <> '' deciding who waits and who gets 23505; oracle: at most one success and one stored transaction per (ledger, reference), every loser gets ErrTransactionReferenceConflict, the final state equals the replay of the winners only (losers leave no trace), cross-ledger both succeed",
 	}, reg.Register)
 
 	registerConc(concCheck{
